@@ -15,7 +15,6 @@ import (
 	"encoding/json"
 	"fmt"
 	"reflect"
-	"sort"
 	"strconv"
 	"strings"
 
@@ -780,11 +779,26 @@ func c11Class(s c11Scn, o c11Obs) string {
 			feats["maxlen"] = true
 		}
 	}
-	fs := []string{}
-	for k := range feats {
-		fs = append(fs, k)
+	// histogram class: outcome / claim names / update, then the schema features present
+	// (shadow = an author property named like a machinery field; rules = CEL, oneOf or
+	// preserve-unknown-fields; maxlen = author name limit; multi = 2+ versions;
+	// opts = default policy or conversion settings)
+	tags := []string{}
+	if shadow {
+		tags = append(tags, "shadow")
 	}
-	sort.Strings(fs)
+	if feats["cel"] || feats["oneOf"] || feats["puf"] {
+		tags = append(tags, "rules")
+	}
+	if feats["maxlen"] {
+		tags = append(tags, "maxlen")
+	}
+	if len(s.Xrd.Versions) >= 2 {
+		tags = append(tags, "multi")
+	}
+	if s.Xrd.DefCUP != nil || s.Xrd.DefCDP != nil || (string(s.Xrd.Conversion) != "null" && len(s.Xrd.Conversion) > 0) {
+		tags = append(tags, "opts")
+	}
 	claim := "noclaim"
 	if s.Xrd.ClaimNames != nil {
 		claim = "claim"
@@ -803,16 +817,7 @@ func c11Class(s c11Scn, o c11Obs) string {
 	if o.XR.Err != "" {
 		e = strings.SplitN(o.XR.Err, ":", 2)[0]
 	}
-	pol := ""
-	if s.Xrd.DefCUP != nil || s.Xrd.DefCDP != nil {
-		pol = "/defpol"
-	}
-	conv := ""
-	if string(s.Xrd.Conversion) != "null" && len(s.Xrd.Conversion) > 0 {
-		conv = "/conv"
-	}
-	return fmt.Sprintf("xr=%s/v=%d/%s/shadow=%v/%s/%s%s%s/admit=%s", e, len(s.Xrd.Versions), claim, shadow, strings.Join(fs, "+"), upd, pol, conv,
-		strings.SplitN(o.AdmitCreate, ":", 2)[0])
+	return fmt.Sprintf("xr=%s/%s/%s/%s", e, claim, upd, strings.Join(tags, "+"))
 }
 
 func init() {
